@@ -614,7 +614,53 @@ def rule_whole_request(ctx, R="C17/whole-request"):
                 ctx.check(okf, R, "copy_from_process-forwards", body.where(bi), "copy_from_process reads (src, length) as given", "copy_from_process reads (%s, %s)" % (show(a[1])[:40], show(ln)[:60]))
 
 
+def rule_no_address_veto(ctx, R="C17/no-address-veto"):
+    """`for every start address`: whether a read is attempted never depends on the address asked for.  In the dispatchers (read,
+    read_to_vec) and the two single-call strategies (vmem, file) no condition on the way to the attempt looks at `src` except through
+    the result of an earlier attempt on that same address: the kernel, not a constant in this crate, decides what is readable
+    (vm.mmap_min_addr is a tunable; MAP_FIXED users map low pages).  The word-wise ptrace strategy is not covered here: its only
+    address conditions are the overflow guards that C17/no-over-read checks."""
+    ATTEMPTS = {MR + "::read": ("MemReader::vmem", "MemReader::file", "MemReader::ptrace"), MR + "::read_to_vec": ("MemReader::read",),
+                MR + "::vmem": ("process_vm_readv",), MR + "::file": ("read_exact_at", "read_at", "pread")}
+    STRATS = ("MemReader::vmem", "MemReader::file", "MemReader::ptrace", "MemReader::read")
+
+    def src_outside(e):
+        if not isinstance(e, tuple):
+            return False
+        if e == ("param", 2):
+            return True
+        if e and e[0] == "call" and isinstance(e[1], str) and e[1].endswith(STRATS):
+            return False
+        if e and e[0] == "call" and isinstance(e[1], str) and e[1].split("::")[-1] in ("map_err", "ok_or", "ok_or_else", "map") and e[2]:
+            return src_outside(e[2][0])   # which variant comes out is decided by the receiver; the closure/value only fills the other side
+        return any(src_outside(x) if not isinstance(x, (list, tuple)) or (x and isinstance(x[0], str)) else any(src_outside(y) for y in x) for x in e[1:] if isinstance(x, (tuple, list)))
+    n = 0
+    for fn, att in sorted(ATTEMPTS.items()):
+        b = ctx.body(R, fn)
+        if b is None:
+            continue
+        o = Origin(b)
+        short = fn.split("::")[-1]
+        sites = list(b.calls(lambda c: (c.short or "").endswith(att)))
+        ctx.floor(R, "attempts in %s" % short, len(sites), {"read": 6, "read_to_vec": 1, "vmem": 1, "file": 1}[short])
+        for k, (bi, t) in enumerate(sites):
+            n += 1
+            dnf = conditions(b, bi, origin=o)
+            bad = sorted({show(q)[:90] for c in (dnf or []) for (q, v) in c if src_outside(strip(q))})
+            ctx.check(dnf is not None and not bad, R, (short, "attempt#%d" % (k + 1)), b.where(bi), "this attempt is reached whatever the address asked for",
+                      "whether this read is attempted depends on the address itself (%s): a readable range at such an address is refused without asking the kernel" % "; ".join(bad[:2]) if bad else "conditions for this attempt cannot be enumerated")
+        # ... and an address-dependent early failure anywhere in the dispatcher is the same veto
+        if short in ("read", "read_to_vec"):
+            ex = Exits(b)
+            for eb in sorted(ex.err_blocks()):
+                dnf = conditions(b, eb, origin=o)
+                bad = sorted({show(q)[:90] for c in (dnf or []) for (q, v) in c if src_outside(strip(q))})
+                ctx.check(not bad, R, (short, "err-exit", len([x for x in sorted(ex.err_blocks()) if x <= eb])), b.where(eb), "this failure does not depend on the address asked for except through an attempt on it",
+                          "this failure is decided by the address itself (%s)" % "; ".join(bad[:2]))
+
+
 def run(ctx):
+    rule_no_address_veto(ctx)
     rule_whole_request(ctx)
     rule_unbuffered(ctx)
     rule_reader_identity(ctx)
